@@ -47,7 +47,7 @@ func findMapLoops(fn *ssa.Function) []mapLoop {
 
 // C11: the result is a deterministic function of document and options.
 func C11(p *core.Program, r *core.Report) {
-	r.Explanation = "D1: every `range` over a map in module code is enumerated; its body is extracted as the transition of one iteration (events: stores to non-local memory, map updates, effectful calls; outcomes: continue / return) and classified automatically as order-insensitive: (a) only inserts into other maps / set-insert helpers, (b) a pure for-all/exists scan whose early returns all yield the same constant, (c) collect-then-sort; anything else must be listed in the reviewed table with a reason, and the two reviewed entries that rely on a lemma have that lemma checked (single plain number scan before the arg-max in isPageNumberSequence; the only consumer of RelevantTagNames inserts into a set). D2: no other source of nondeterminism in module code: no goroutines/select, no math/rand, crypto/rand, environment or pointer formatting; values derived from time.Now/time.Since flow only into TimingInfo fields, AddEntry and timing log calls. D3: no state survives a call (effect analysis: no writes to package-level state, see C12). D4: ApplyForReader returns exactly Apply(dom.Parse(r), opts) or the parse error, ApplyForFile exactly ApplyForReader(file, opts) or the open error (decision-list conformance). D5: the third-party code reachable from Apply/ApplyForReader/ApplyForFile (neither module nor standard library) contains no go statement or select (one known finding: the charset guesser of dom.Parse)."
+	r.Explanation = "D1: every `range` over a map in module code is enumerated; its body is extracted as the transition of one iteration (events: stores to non-local memory, map updates, effectful calls; outcomes: continue / return) and classified automatically as order-insensitive: (a) only inserts into other maps / set-insert helpers, (b) a pure for-all/exists scan whose early returns all yield the same constant, (c) collect-then-sort; anything else must be listed in the reviewed table with a reason, and the two reviewed entries that rely on a lemma have that lemma checked (single plain number scan before the arg-max in isPageNumberSequence; the only consumer of RelevantTagNames inserts into a set). D2: no other source of nondeterminism in module code: no goroutines/select, no math/rand, crypto/rand, environment or pointer formatting; values derived from time.Now/time.Since flow only into TimingInfo fields, AddEntry and timing log calls. D3: no state survives a call (effect analysis: no writes to package-level state, see C12). D4: ApplyForReader returns exactly Apply(dom.Parse(r), opts) or the parse error, ApplyForFile exactly ApplyForReader(file, opts) or the open error (decision-list conformance). D5: the third-party code reachable from Apply/ApplyForReader/ApplyForFile (neither module nor standard library) contains no go statement or select (one known finding: the charset guesser of dom.Parse). D3 also: module code does not fill sync.Map/sync.Pool or bump atomic counters (the effects analysis trusts those containers for C12, but what is put into one survives the call)."
 	r.NotCovered = "determinism of third-party code and the standard library (trusted), map ranges inside third-party packages, floating point; the tie-break between equally good pagination patterns (reviewed exception, not proven order-independent)."
 
 	// ---- D1
